@@ -428,6 +428,17 @@ FSHAPES = {
 }
 # impls for types that have no serde representation at all (nothing to compare with); their dependency reporting is still checked
 NO_SERDE = {'Duration', 'TimeDelta', 'Date<T>', 'Utc', 'Local', 'FixedOffset', 'Mutex<T>', 'OnceCell<T>', 'RwLock<T>', 'TsJsonValue'}
+# a concrete Rust instantiation per feature-gated impl (for the native confirmation of engine findings): T = i32, K = String, V = i32
+FCONCRETE = {
+    'BigDecimal': 'bigdecimal::BigDecimal', 'SmolStr': 'smol_str::SmolStr', 'uuid::Uuid': 'uuid::Uuid', 'Url': 'url::Url',
+    'OrderedFloat<f32>': 'ordered_float::OrderedFloat<f32>', 'OrderedFloat<f64>': 'ordered_float::OrderedFloat<f64>',
+    'bson::oid::ObjectId': 'bson::oid::ObjectId', 'bson::Uuid': 'bson::Uuid', 'semver::Version': 'semver::Version',
+    'NaiveDateTime': 'chrono::NaiveDateTime', 'NaiveDate': 'chrono::NaiveDate', 'NaiveTime': 'chrono::NaiveTime', 'Month': 'chrono::Month',
+    'Weekday': 'chrono::Weekday', 'DateTime<T>': 'chrono::DateTime<chrono::Utc>', 'serde_json::Number': 'serde_json::Number',
+    'indexmap::IndexSet<T>': 'indexmap::IndexSet<i32>', 'indexmap::IndexMap<K, V>': 'indexmap::IndexMap<String, i32>',
+    'heapless::Vec<T, N>': 'heapless::Vec<i32, 4>', 'bytes::Bytes': 'bytes::Bytes', 'bytes::BytesMut': 'bytes::BytesMut',
+    'serde_json::Map<K, V>': 'serde_json::Map<String, i32>', 'serde_json::Value': 'serde_json::Value',
+}
 MODULE_FILES = {'chrono': 'ts-rs/src/chrono.rs', 'serde_json': 'ts-rs/src/serde_json.rs', 'tokio': 'ts-rs/src/tokio.rs'}
 
 
@@ -566,6 +577,17 @@ def feature_part(rep):
                     else:
                         rep.inconclusive.append(f'witness of F16 does not reproduce natively: {v}')
                     continue
+                key_ = v['impl'] if v['impl'] in FCONCRETE else v['impl'].split('::')[-1]
+                natv = G.get('native_feature_names', {}).get((key_, v['method']))
+                if natv is not None and v['method'] in ('name', 'inline'):
+                    sh = SHAPES.get(v['impl'])
+                    sh = sh[v['method']] if isinstance(sh, dict) else sh
+                    want = re.sub(r'\{([A-Z]\w*)\}', lambda a: {'K': 'string'}.get(a.group(1), 'number'), sh or '')
+                    v['native'] = natv
+                    v['table_instantiated'] = want
+                    if natv == want:
+                        rep.inconclusive.append(f'engine finding does not reproduce natively: {v}')
+                        continue
                 rep.violations.append({'what': f'impl TS for {v["impl"]} (feature-gated): {v["why"]}', 'witness': v, 'key': f'{v["impl"]}/{v["method"]}'})
             r.pop('known_hits', None)
             rep.absorb(r)
@@ -601,7 +623,9 @@ def native_feature_samples(rep):
         os.makedirs(os.path.join(scratch, 'src'))
         shutil.copy(os.path.join(REPO, 'Cargo.lock'), os.path.join(scratch, 'Cargo.lock'))
         with open(os.path.join(scratch, 'Cargo.toml'), 'w') as fh:
+            feats = ', '.join(f'"{f}"' for f in FEATS)
             fh.write('[package]\nname = "c12fprobe"\nversion = "0.0.0"\nedition = "2021"\n[workspace]\n[dependencies]\n'
+                     f'ts-rs = {{ path = "{os.path.join(REPO, "ts-rs")}", features = [{feats}] }}\n'
                      'serde = { version = "1", features = ["derive"] }\nserde_json = "1"\n'
                      'chrono = { version = "0.4", features = ["serde"] }\nbigdecimal = { version = "0.4", features = ["serde"] }\n'
                      'uuid = { version = "1", features = ["serde"] }\nbson = "2"\nbytes = { version = "1", features = ["serde"] }\n'
@@ -625,9 +649,12 @@ def native_feature_samples(rep):
             ('bytes::Bytes', 'bytes::Bytes::from_static(b"ab")'), ('bytes::BytesMut', 'bytes::BytesMut::from(&b"ab"[..])'),
             ('serde_json::Map<K, V>', '{ let mut m = serde_json::Map::new(); m.insert("k".into(), serde_json::json!(1)); m }'),
         ]
-        body = ['fn main() {']
+        body = ['use ts_rs::TS;', 'fn main() {']
         for key, expr in samples:
             body.append(f'    println!("J\\t{{}}\\t{{}}", r#"{key}"#, serde_json::to_string(&({expr})).unwrap());')
+        for key, rty in FCONCRETE.items():
+            body.append(f'    println!("N\\t{{}}\\t{{}}", r#"{key}"#, <{rty} as TS>::name());')
+            body.append(f'    println!("I\\t{{}}\\t{{}}", r#"{key}"#, <{rty} as TS>::inline());')
         body.append('}')
         with open(os.path.join(scratch, 'src', 'main.rs'), 'w') as fh:
             fh.write('\n'.join(body) + '\n')
@@ -636,10 +663,13 @@ def native_feature_samples(rep):
             rep.inconclusive.append('c12 feature probe failed to build/run: ' + p.stderr[-1500:])
             return None
         got = {}
+        G['native_feature_names'] = {}
         for ln in p.stdout.split('\n'):
             f = ln.split('\t')
             if f[0] == 'J':
                 got.setdefault(f[1], []).append(f[2])
+            elif f[0] in ('N', 'I') and len(f) > 2:
+                G['native_feature_names'][(f[1], 'name' if f[0] == 'N' else 'inline')] = f[2]
     finally:
         shutil.rmtree(scratch, ignore_errors=True)
     # the table must accept each sample (a light structural test: JSON kind vs the table's outermost shape)
